@@ -93,10 +93,29 @@ func (SubsScenario) GenCase(r *rand.Rand, prop string) interface{} {
 		{">"}, {""}, {"", ">"}, {"m.>"}, {"m.>", "c"}, {"m.*", "c"}, {"m.*", "m.*.sub"}, {"m.>", "m.1"}, {"m.1", "m.1"}, {"c", "c", "m.>"},
 		{"m.*.sub", "m.>"}, {">", "c"}, {"*"}, {"*.>"}, {"m.1", "m.2", "m.1.sub"}, {}, {"deep.>"}, {"deep.a.>", "deep.a.b.c"}, {"*.1"},
 	}
+	// and lists put together at random from an alphabet of entries (seeded
+	// change C09w needed a plain entry next to a wildcarded one ending in >
+	// that covers its methods, such as c and *.>, which the catalogue above
+	// did not have)
+	alphabet := []string{"c", "m.1", "m.2", "m.*", "m.>", "m.*.sub", "m.1.sub", "*", "*.>", "m.*.>", "*.1", "*.1.>", "*.*", "deep.>", "deep.a.>", "deep.*.b.c", ">", ""}
+	randomList := func() []string {
+		var l []string
+		for i, n := 0, 1+r.IntN(3); i < n; i++ {
+			l = append(l, pick(r, alphabet...))
+		}
+		return l
+	}
+	lists = append(lists, []string{"c", "*.>"}, []string{"m.1", "m.*.>"}, []string{"*", "*.>"})
+	pickList := func() []string {
+		if chance(r, 40) {
+			return randomList()
+		}
+		return pick(r, lists...)
+	}
 	if chance(r, 60) {
 		var own [2][]string
-		own[0] = prefixed(c.SvcName, pick(r, lists...)...)
-		own[1] = prefixed(c.SvcName, pick(r, lists...)...)
+		own[0] = prefixed(c.SvcName, pickList()...)
+		own[1] = prefixed(c.SvcName, pickList()...)
 		if chance(r, 15) {
 			own[0] = []string{}
 		}
@@ -480,7 +499,13 @@ func (e *Engine) checkSubs(ep int) {
 			}
 		}
 		e.H.Evals++
-		if owners == 1 && byInbox[s.Inbox] != 1 {
+		if sig := redundancySignature(s.Op.Subject, resSet, routedSubjects(e.Epochs[ep].Conn, s.Op.Subject)); owners == 1 && byInbox[s.Inbox] > 1 && byInbox[s.Inbox] == s.Routed && sig == "method-token-matched-by-full-wildcard" && rtype != "access" {
+			// the redundant delivery of the known shape (a method call on
+			// P itself caught by the subscription of P.>), seen from the
+			// requester's side: the same finding as the redundant
+			// subscription, identified by the same shape
+			e.H.Violate("C09", "redundant-subscription", sig, fmt.Sprintf("request %s under one owned pattern got %d responses (routed to %d subscriptions: %v)", s.Op.Subject, byInbox[s.Inbox], s.Routed, routedSubjects(e.Epochs[ep].Conn, s.Op.Subject)))
+		} else if owners == 1 && byInbox[s.Inbox] != 1 {
 			e.H.Violate("C09", "response-count", "", fmt.Sprintf("request %s under one owned pattern got %d responses (routed to %d subscriptions)", s.Op.Subject, byInbox[s.Inbox], s.Routed))
 		}
 	}
